@@ -85,3 +85,26 @@ package dst
 //@ loop 2 invariant keys: forall k string :: has(out.Files, k) == $visited[k]
 //@ loop 2 invariant subset: forall k string :: $visited[k] ==> has(n.Files, k)
 //@ loop 2 invariant values: forall k string :: has(out.Files, k) ==> cloneOf(out.Files[k], n.Files[k])
+
+// ---------------------------------------------------------------------------------------------
+// Walk / Inspect (walk.go)
+//
+// The per-type child sequence of Walk is compared by the machinery with the sequence extracted
+// from go/ast's Walk (same extractor, same SSA pipeline). The contract below carries the
+// precondition both state in their documentation: node must not be nil.
+
+//@ func Walk
+//@ requires node_not_nil: node != nil
+//@ modifies nothing
+
+//@ func walkIdentList
+//@ modifies nothing
+
+//@ func walkExprList
+//@ modifies nothing
+
+//@ func walkStmtList
+//@ modifies nothing
+
+//@ func walkDeclList
+//@ modifies nothing
